@@ -79,8 +79,8 @@ func addr(i int) []byte {
 	return a
 }
 
-func (w *world) params(weights []uint64, tau uint64) bftsim.Params {
-	p := bftsim.Params{Precommit: tau, Cert: tau}
+func (w *world) params(weights []uint64, tau, cert uint64) bftsim.Params {
+	p := bftsim.Params{Precommit: tau, Cert: cert}
 	for i, wt := range weights {
 		if wt > 0 {
 			p.Vals = append(p.Vals, bftsim.Val{Addr: w.addrs[i], Weight: wt, BLS: bytes.Repeat([]byte{byte(i + 1)}, 48)})
@@ -253,12 +253,17 @@ func explore(t *rapid.T, sc scenario) (conflict string, nontrivial bool, w *worl
 	w.hist = append(w.hist, fmt.Sprintf("n=%d batch=%d weights=%v W=%d precommitThreshold=%d byzantine=%v f=%d", n, w.batch, w.weights, W, tau, w.byz, f))
 	w.sim = bftsim.New(w.batch)
 	defer w.sim.Close()
-	if err := w.sim.Genesis(0, w.params(w.weights, tau)); err != nil {
+	// the certificate threshold is a parameter of its own (any value in [W/3+1, W]); finality must not depend on it
+	certTau := tau
+	if rapid.Bool().Draw(t, "ownCertificateThreshold") {
+		certTau = rapid.Uint64Range(W/3+1, W).Draw(t, "certificateThreshold")
+	}
+	if err := w.sim.Genesis(0, w.params(w.weights, tau, certTau)); err != nil {
 		t.Fatalf("genesis: %v", err)
 	}
 	g := &blk{id: 0, dump: w.sim.Dump(), model: mbft.New(w.batch, 0)}
 	{
-		p0 := w.params(w.weights, tau)
+		p0 := w.params(w.weights, tau, certTau)
 		var vals []mbft.Val
 		for _, v := range p0.Vals {
 			vals = append(vals, mbft.Val{Addr: v.Addr, Weight: v.Weight})
@@ -299,7 +304,7 @@ func explore(t *rapid.T, sc scenario) (conflict string, nontrivial bool, w *worl
 				tau2 = rapid.Uint64Range(W2/3+1+f2, W2).Draw(t, "changeTau")
 			}
 			if 3*f2 < W2 && f2+W2/3+1 <= tau2 && mixedQuorumsIntersectHonestly(w.weights, tau, nw, tau2, w.byz) {
-				w.change = &paramChange{atHeight: uint32(rapid.IntRange(2, 12).Draw(t, "changeAt")), params: w.params(nw, tau2)}
+				w.change = &paramChange{atHeight: uint32(rapid.IntRange(2, 12).Draw(t, "changeAt")), params: w.params(nw, tau2, rapid.Uint64Range(W2/3+1, W2).Draw(t, "changeCert"))}
 				w.hist = append(w.hist, fmt.Sprintf("weights change to %v (threshold %d) in block %d", nw, tau2, w.change.atHeight))
 			}
 		}
